@@ -317,9 +317,16 @@ def swapped_arguments(prog, mi):
                         if other is None or not (isinstance(other, ast.Name) and other.id == a.id):
                             out.append((call, 'self.' + call.func.attr, a.id, p_))
     for fn in [n for n in ast.walk(mi.tree) if isinstance(n, ast.FunctionDef)]:
-        for call in [c for c in ast.walk(fn) if isinstance(c, ast.Call) and isinstance(c.func, ast.Name) and c.func.id in callees]:
-            cands = callees[call.func.id]
-            own = dict.get(mi.functions, call.func.id)
+        for call in [c for c in ast.walk(fn) if isinstance(c, ast.Call)]:
+            if isinstance(call.func, ast.Name) and call.func.id in callees:
+                cname = call.func.id
+            elif isinstance(call.func, ast.Attribute) and isinstance(call.func.value, ast.Name) and call.func.attr in callees \
+                    and str(mi.imports.get(call.func.value.id, '')).startswith('cherab'):
+                cname = call.func.attr               # package.function(...): a function reached through an imported package of the program
+            else:
+                continue
+            cands = callees[cname]
+            own = dict.get(mi.functions, cname) if isinstance(call.func, ast.Name) else None
             if own is not None:
                 cands = [(own, False)]          # a function of the same module is the one the bare name denotes
             if len(cands) != 1 or len(call.args) < 2:
@@ -338,7 +345,7 @@ def swapped_arguments(prog, mi):
                 if isinstance(a, ast.Name) and a.id != p and a.id in ps:
                     other = bound.get(a.id)
                     if other is None or not (isinstance(other, ast.Name) and other.id == a.id):
-                        out.append((call, call.func.id, a.id, p))
+                        out.append((call, cname, a.id, p))
     return out
 
 
@@ -561,19 +568,48 @@ def falsy_numeric_default(fn):
     return out
 
 
+def _star_names(prog, modname, depth):
+    """public top-level names of a package-internal module reached by 'from m import *' (None: not loaded / not resolvable)"""
+    if prog is None or depth > 4:
+        return None
+    m = prog.modules.get(modname)
+    if m is None:
+        return None
+    out = set(dict.keys(m.functions)) | set(m.classes) | set(m.assigns) | set(m.imports)
+    for st in m.tree.body:
+        if isinstance(st, (ast.FunctionDef, ast.ClassDef)):
+            continue
+        for t in ast.walk(st):
+            if isinstance(t, ast.Name) and isinstance(t.ctx, ast.Store):
+                out.add(t.id)
+    for sm in m.star_imports:
+        sub = _star_names(prog, sm, depth + 1)
+        if sub is None:
+            return None
+        out |= sub
+    return {n for n in out if not n.startswith('_')}
+
+
 def never_bound_names(fn, mi, prog=None):
     """[(Name node)]: names the function reads that are bound nowhere -- not a parameter, never assigned in the function (on any path), not a
     module-level definition / import (of the module or of its declaration file), not a builtin: reading them raises NameError /
     UnboundLocalError.  (The typical cause is a deleted or renamed defining statement.)  Modules with star imports are skipped."""
     import builtins
-    if getattr(mi, 'star_imports', None):
-        return []
+    star = set()
+    for sm in (getattr(mi, 'star_imports', None) or []):
+        names = _star_names(prog, sm, 0)
+        if names is None:
+            return []
+        star |= names
     if getattr(fn, '_inlined', None) or any(isinstance(n, ast.Name) and n.id.startswith('__h') for n in ast.walk(fn)):
         return []            # helpers of other modules were expanded into this body: their names belong to those modules
     pm = prog.modules.get(mi.name + '#pxd') if prog is not None else None
-    if pm is not None and pm.star_imports:
-        return []
-    known = set(dir(builtins)) | {'__cast__', 'sizeof', 'NULL', '__file__', '__name__', '__doc__', '__cy_unsupported__', '__last__', 'cython', 'self', 'cls'}
+    for sm in (pm.star_imports if pm is not None else []):
+        names = _star_names(prog, sm, 0)
+        if names is None:
+            return []
+        star |= names
+    known = star | set(dir(builtins)) | {'__cast__', 'sizeof', 'NULL', '__file__', '__name__', '__doc__', '__cy_unsupported__', '__last__', 'cython', 'self', 'cls'}
     known |= set(dict.keys(mi.functions)) | set(mi.classes) | set(mi.assigns) | set(mi.imports)
     if pm is not None:
         known |= set(dict.keys(pm.functions)) | set(pm.classes) | set(pm.assigns) | set(pm.imports)
@@ -599,10 +635,11 @@ def never_bound_names(fn, mi, prog=None):
                 elif isinstance(t, (ast.FunctionDef, ast.ClassDef)):
                     known.add(t.name)
     bound = set()
+    aug = {id(n.target) for n in ast.walk(fn) if isinstance(n, ast.AugAssign)}      # 'x += 1' reads x before it binds it
     for n in ast.walk(fn):
         if isinstance(n, ast.arg):
             bound.add(n.arg)
-        elif isinstance(n, ast.Name) and isinstance(n.ctx, (ast.Store, ast.Del)):
+        elif isinstance(n, ast.Name) and isinstance(n.ctx, (ast.Store, ast.Del)) and id(n) not in aug:
             bound.add(n.id)
         elif isinstance(n, (ast.FunctionDef, ast.ClassDef)) and n is not fn:
             bound.add(n.name)
@@ -619,8 +656,8 @@ def never_bound_names(fn, mi, prog=None):
     for n in ast.walk(fn):
         if id(n) in deco:
             continue
-        if isinstance(n, ast.Name) and isinstance(n.ctx, ast.Load) and n.id not in bound and n.id not in known and n.id not in seen \
-                and not n.id.startswith('__'):
+        if isinstance(n, ast.Name) and (isinstance(n.ctx, ast.Load) or id(n) in aug) and n.id not in bound and n.id not in known \
+                and n.id not in seen and not n.id.startswith('__'):
             seen.add(n.id)
             out.append(n)
     return out
@@ -715,4 +752,59 @@ def fields_never_written(prog, ci):
                     continue
                 seen.add(n.attr)
                 out.append((n, n.attr))
+    return out
+
+
+
+def miscounted_collection_loops(fn):
+    """[(node, what)]: 'c = 0; L = []; while c != N: ... c += 1; L.append(v)' collects exactly N values.  Reported: a start value other than
+    0 or a step other than 1 while one value is appended per step (N - start values, or every other count, are collected), and a loop
+    whose condition names are never assigned in its body and which has no other exit (it never ends, or never runs)."""
+    out = []
+
+    def blocks(node):
+        for f in ('body', 'orelse', 'finalbody'):
+            b = getattr(node, f, None)
+            if isinstance(b, list) and b and isinstance(b[0], ast.stmt):
+                yield b
+        for h in getattr(node, 'handlers', []) or []:
+            yield h.body
+
+    def visit(stmts):
+        for i, st in enumerate(stmts):
+            if isinstance(st, ast.While) and isinstance(st.test, ast.Compare) and len(st.test.ops) == 1 and isinstance(st.test.left, ast.Name) \
+                    and isinstance(st.test.ops[0], (ast.NotEq, ast.Lt)):
+                c = st.test.left.id
+                inner = [n for b in st.body for n in ast.walk(b)]
+                stores = [n for n in inner if isinstance(n, ast.Name) and isinstance(n.ctx, ast.Store)]
+                tnames = {n.id for n in ast.walk(st.test) if isinstance(n, ast.Name)}
+                exits = [n for n in inner if isinstance(n, (ast.Break, ast.Return, ast.Raise))]
+                if not any(isinstance(n, ast.Call) for n in ast.walk(st.test)) and not exits and not (tnames & {n.id for n in stores}) \
+                        and not any(isinstance(n, (ast.Attribute, ast.Subscript)) for n in ast.walk(st.test)):
+                    out.append((st, "the loop 'while %s' changes none of the names of its condition and has no other exit" % ast.unparse(st.test)))
+                incs = [(b, n) for outer in [st] + [x for x in inner if hasattr(x, 'body')] for b in blocks(outer) for n in b
+                        if isinstance(n, ast.AugAssign) and isinstance(n.target, ast.Name) and n.target.id == c]
+                if len(incs) == 1 and isinstance(incs[0][1].op, ast.Add) and isinstance(incs[0][1].value, ast.Constant) \
+                        and len([n for n in stores if n.id == c]) == 1:
+                    blk, inc = incs[0]
+                    apps = [n for n in blk if isinstance(n, ast.Expr) and isinstance(n.value, ast.Call) and isinstance(n.value.func, ast.Attribute)
+                            and n.value.func.attr == 'append' and isinstance(n.value.func.value, ast.Name) and len(n.value.args) == 1]
+                    if len(apps) == 1 and not any(isinstance(x, ast.Name) and x.id == c for x in ast.walk(apps[0].value.args[0])):
+                        L = apps[0].value.func.value.id
+                        init = [p for p in stmts[:i] if isinstance(p, ast.Assign) and len(p.targets) == 1 and isinstance(p.targets[0], ast.Name)
+                                and p.targets[0].id == c]
+                        linit = [p for p in stmts[:i] if isinstance(p, ast.Assign) and len(p.targets) == 1 and isinstance(p.targets[0], ast.Name)
+                                 and p.targets[0].id == L and isinstance(p.value, ast.List) and not p.value.elts]
+                        if linit and init and isinstance(init[-1].value, ast.Constant) and isinstance(init[-1].value.value, int):
+                            k0, k = init[-1].value.value, inc.value.value
+                            bound = ast.unparse(st.test.comparators[0])
+                            if k0 != 0:
+                                out.append((init[-1], "'%s' starts at %r while one value is appended to '%s' per count up to %s: %s values are "
+                                                      "collected, not %s" % (c, k0, L, bound, '%s - %r' % (bound, k0), bound)))
+                            elif k != 1:
+                                out.append((inc, "'%s' advances by %r for each value appended to '%s': the loop ends after a different number of "
+                                                 "values than %s (or never, with '!=')" % (c, k, L, bound)))
+            for b in blocks(st):
+                visit(b)
+    visit(fn.body)
     return out
